@@ -54,6 +54,11 @@ def cases(tier, seed):
         for g in gl:
             if g != [1, 1]:
                 out.append({'kind': 'driver', 'cfg': cfg, 'grid': g, 'cost': 30 * g[0] * g[1] * cfg['steps']})
+    # plot-only rank: the compute ranks must hold the same field as without it, whichever rank is the drawing rank
+    for size in ((3, 5) if tier == 'quick' else (2, 3, 4, 5, 7)):
+        for draw in sorted(set([0, size // 2, size - 1])):
+            for start in ('flux_surface', 'v_parallel', 'poloidal'):
+                out.append({'kind': 'plotrank', 'cfg': {'npts': [6, 8, 7, 6], 'start': start, 'mn': [2, 1]}, 'grid': [size, 1], 'size': size, 'draw': draw, 'cost': 20 * size})
     # schedules: partitioned over several cases by the position of the first deviation
     if tier == 'quick':
         plans = [([2, 2], 1, 4)]
@@ -347,6 +352,64 @@ def run_case(case):
         n = len(ref)
         return {'evals': n, 'nontrivial': n, 'violations': list(seen.values()), 'stats': {'max_rel_diff_vs_serial': worst, 'worlds': 1},
                 'sample': {'grid': grid, 'stages': sorted(ref), 'max_rel_diff_vs_serial': worst}}
+    if case['kind'] == 'plotrank':
+        import io
+        import sys
+        from pgv import simmpi
+        MPI = sim.setup()
+        from pygyro.initialisation.setups import setupCylindricalGrid
+        size, draw = case['size'], case['draw']
+        npts = cfg['npts']
+
+        def fn(r):
+            comm = MPI.COMM_WORLD
+            g, c, t = setupCylindricalGrid(layout=cfg['start'], npts=list(npts), comm=comm, plotThread=True, drawRank=draw, eps=0.1, m=cfg['mn'][0], n=cfg['mn'][1])
+            out = {}
+            bad = []
+            if r != draw:
+                l = g.getLayout(g.currentLayout)
+                gi = sim.global_index_arrays(l)
+                eta = g.eta_grid
+                want = _finit(c, eta[0][gi[0]], eta[1][gi[1]], eta[2][gi[2]], eta[3][gi[3]])
+                if not (g.getAllData().shape == want.shape and sim.maxrel(g.getAllData(), want) <= TOL):
+                    bad.append('init-with-plot-rank')
+            elif g.getAllData().size != 0:
+                bad.append('plot-rank-owns-data')
+            for lname in ('v_parallel', 'poloidal', 'flux_surface'):
+                g.setLayout(lname)
+                if r != draw:
+                    out[lname] = sim.block_of(g)
+                mn, mx = g.getMin(draw), g.getMax(draw)
+                if r == draw:
+                    out['mm' + lname] = (mn, mx)
+            return out, bad
+        old = sys.stdout
+        sys.stdout = io.StringIO()
+        try:
+            res = simmpi.World(size).run(fn)
+        except Exception as e:  # noqa
+            V('plotrank-exception:' + type(e).__name__, '%s: %s (%s size %d draw %d)' % (type(e).__name__, e, tag, size, draw))
+            return {'evals': 1, 'nontrivial': 1, 'violations': list(seen.values()), 'stats': {}, 'sample': None}
+        finally:
+            sys.stdout = old
+        I = np.indices(npts)
+        from pygyro.initialisation.constants import Constants
+        c = Constants()
+        c.npts = list(npts)
+        c.eps, c.m, c.n = 0.1, cfg['mn'][0], cfg['mn'][1]
+        for rk, (o, bad) in enumerate(res):
+            for b in bad:
+                V(b, '%s on rank %d (world %d, drawing rank %d, start %s)' % (b, rk, size, draw, cfg['start']))
+        for lname in ('v_parallel', 'poloidal', 'flux_surface'):
+            parts = [o[lname] for rk, (o, bad) in enumerate(res) if rk != draw]
+            A, full = sim.assemble(parts, npts)
+            ref = _serial({'npts': npts, 'start': cfg['start'], 'iota': 0.0, 'mn': cfg['mn']}, 'init')[0]['f0']
+            if not full or not sim.maxrel(A, ref) <= TOL:
+                V('plotrank-field-differs', 'layout %s: field assembled from the compute ranks differs from the serial initial field (world %d, drawing rank %d, start %s)' % (lname, size, draw, cfg['start']))
+            mn, mx = res[draw][0]['mm' + lname]
+            if mn != ref.min() or mx != ref.max():
+                V('plotrank-minmax-differs', 'layout %s: drawing rank sees min/max (%r,%r), global (%r,%r) (world %d, drawing rank %d)' % (lname, mn, mx, ref.min(), ref.max(), size, draw))
+        return {'evals': 7, 'nontrivial': 7, 'violations': list(seen.values()), 'stats': {'plotrank_worlds': 1}, 'sample': {'world': size, 'drawing_rank': draw, 'start': cfg['start']}}
     if case['kind'] == 'driver':
         key = 'drv' + json.dumps(cfg, sort_keys=True)
         if key not in _cache:
